@@ -46,7 +46,7 @@ PROPS = {
     "C06": {"tscale": 20, "qscale": 15}, "C07": {"tscale": 40, "qscale": 40}, "C08": {"race_in_thorough": True, "qscale": 6},
     "C09": {"tscale": 30, "qscale": 20}, "C10": {"tscale": 40, "qscale": 12}, "C11": {"tscale": 3, "qscale": 2},
     "C12": {"tscale": 40, "qscale": 80}, "C13": {"tscale": 40, "qscale": 20}, "C14": {"tscale": 60, "qscale": 80},
-    "C15": {"tscale": 60, "qscale": 80}, "C16": {"qscale": 4}, "C17": {"tscale": 12, "qscale": 15}, "C18": {"race": True},
+    "C15": {"tscale": 60, "qscale": 80, "virtual_clock_job": "lifetime"}, "C16": {"qscale": 4}, "C17": {"tscale": 12, "qscale": 15}, "C18": {"race": True},
     "C19": {"tscale": 30, "qscale": 60}, "C20": {"qscale": 2},
 }
 
@@ -70,7 +70,7 @@ def goenv():
     return env
 
 
-def build(race=False):
+def build(race=False, faketime=False):
     """Rebuild the worker against /repo's current working tree. Returns (path, None) or (None, err)."""
     os.makedirs(BIN, exist_ok=True)
     prepare_harness()
@@ -80,12 +80,18 @@ def build(race=False):
                        env=goenv(), stdout=subprocess.PIPE, stderr=subprocess.STDOUT, text=True)
     if p.returncode != 0:
         return None, "census failed:\n" + p.stdout[-4000:]
-    out = os.path.join(BIN, "worker-race" if race else "worker")
-    cmd = ["go", "build", "-tags", "verif", "-o", out]
+    out = os.path.join(BIN, "worker-race" if race else ("worker-faketime" if faketime else "worker"))
+    cmd = ["go", "build", "-tags", "verif faketime" if faketime else "verif", "-o", out]
     if race:
         cmd.append("-race")
     cmd.append("./cmd/worker")
-    p = subprocess.run(cmd, cwd=HARNESS, env=goenv(), stdout=subprocess.PIPE, stderr=subprocess.STDOUT, text=True)
+    env = goenv()
+    if faketime:
+        # the runtime's virtual clock (time.Now advances only while every goroutine is blocked, so
+        # time.Sleep(48h) returns at once). It needs a binary without the cgo runtime: with it the
+        # scheduler's all-idle detection, which is what advances the clock, never fires.
+        env["CGO_ENABLED"] = "0"
+    p = subprocess.run(cmd, cwd=HARNESS, env=env, stdout=subprocess.PIPE, stderr=subprocess.STDOUT, text=True)
     if p.returncode != 0:
         return None, p.stdout[-4000:]
     return out, None
@@ -212,6 +218,10 @@ def check(prop, tier, seed, nshards):
     builds = [("normal", False)] if not race else [("race", True)]
     if tier == "thorough" and cfg.get("race_in_thorough"):
         builds.append(("race", True))
+    if cfg.get("virtual_clock_job"):
+        # a second worker built with the runtime's virtual clock runs one job (first, so that the
+        # distinct-case count below is taken from the main build's output)
+        builds.insert(0, ("virtual-clock", False))
     known = load_known()
     evidence_path = os.path.join(EVID, f"{prop}.json")
     os.makedirs(os.path.dirname(evidence_path), exist_ok=True)
@@ -228,7 +238,7 @@ def check(prop, tier, seed, nshards):
     race_reports = 0
 
     for bname, brace in builds:
-        worker, err = build(race=brace)
+        worker, err = build(race=brace, faketime=(bname == "virtual-clock"))
         if worker is None:
             print(f"INCONCLUSIVE property={prop} reason=build-failed\n{err}")
             write_evidence(prop, tier, seed, merged, 0, time.time() - t0, [], ["build failed"], inconclusive=True)
@@ -239,6 +249,8 @@ def check(prop, tier, seed, nshards):
         os.makedirs(outdir)
         limit = 3000 if tier == "thorough" else 900
         extra_env = {}
+        if bname == "virtual-clock":
+            extra_env["VERIF_ONLY_JOB"] = cfg["virtual_clock_job"]
         if brace:
             extra_env["GORACE"] = f"halt_on_error=0 log_path={outdir}/race history_size=5"
         rc = run_shards(worker, prop, tier, seed, nshards, outdir, limit, extra_env)
@@ -481,7 +493,8 @@ def cmd_replay(path):
     v = json.load(open(path))
     prop = v.get("checked_by") or v["property"]
     race = PROPS.get(prop, {}).get("race", False)
-    worker, err = build(race=race)
+    vc = PROPS.get(prop, {}).get("virtual_clock_job")
+    worker, err = build(race=race, faketime=bool(vc) and v.get("job") == vc)
     if worker is None:
         print("build failed\n" + err); return 3
     if v.get("job") in (None, "", "race-log"):
